@@ -144,3 +144,34 @@ Proof.
   replace (Rabs (4 - 1)) with 3 by (rewrite Rabs_right; lra).
   repeat f_equal; lra.
 Qed.
+
+(* the interpolation s(s_perp) at a node returns the node's value: with strictly increasing perpendicular distances the spacing
+   function built on it starts at 0 (startInd) and reaches the contour length at endInd *)
+Lemma interp_extrap_at_node xp fp j : incr xp -> (2 <= length xp)%nat -> (j < length xp)%nat ->
+  interp_extrap Rops xp fp (nth j xp 0) = nth j fp 0.
+Proof.
+  intros Hinc Hn Hj.
+  assert (Hr : nth 0 xp 0 <= nth j xp 0 <= last xp 0).
+  { rewrite last_nth_R. split.
+    - destruct j as [|j']; [lra|]. left. apply incr_lt; [exact Hinc|lia].
+    - destruct (Nat.eq_dec j (length xp - 1)) as [->|Hne]; [lra|]. left. apply incr_lt; [exact Hinc|lia]. }
+  destruct (seg_lo_spec xp (nth j xp 0) Hinc Hn Hr) as [Hlo [H1 H2]].
+  rewrite interp_extrap_eq. set (lo := seg_lo xp (nth j xp 0)) in *.
+  pose proof (Hinc lo Hlo) as Hd.
+  destruct (Nat.lt_trichotomy j lo) as [L|[E|G]].
+  - pose proof (incr_lt xp Hinc j lo ltac:(lia)). lra.
+  - rewrite E. field. lra.
+  - destruct (Nat.eq_dec j (S lo)) as [E|Hne]; [rewrite E; field; lra|].
+    pose proof (incr_lt xp Hinc (S lo) j ltac:(lia)). lra.
+Qed.
+
+Theorem s_of_sperp_end_points (sp dist : list R) si ei : incr sp -> (2 <= length sp)%nat -> length dist = length sp ->
+  (si < length sp)%nat -> (ei < length sp)%nat ->
+  s_of_sperp Rops sp dist si (nth si sp 0) = 0 /\
+  s_of_sperp Rops sp dist si (nth ei sp 0) = nth ei dist 0 - nth si dist 0.
+Proof.
+  intros Hinc Hn Hl Hsi Hei. unfold s_of_sperp. change (pzero Rops) with 0. cbn [osub Rops].
+  assert (Hm : forall k, (k < length dist)%nat -> nth k (map (fun d => d - nth si dist 0) dist) 0 = nth k dist 0 - nth si dist 0).
+  { intros k Hk. rewrite (nth_indep _ 0 (0 - nth si dist 0)) by (rewrite map_length; exact Hk). apply (map_nth (fun d => d - nth si dist 0)). }
+  rewrite !interp_extrap_at_node by assumption. rewrite !Hm by lia. split; ring.
+Qed.
